@@ -8,7 +8,7 @@
            `inline` is compiled at -O0 and -O1 and executed from the same initial states as the
            unmarked program; termination, every variable, X and Y must agree.
 """
-import itertools, re
+import itertools, c02, re
 from lib import *
 import prog, gen_c, coexec, c13
 
@@ -89,6 +89,33 @@ def run(chk):
             names = [f[1] for f in p.funcs if f[1] != "main"]
             if names:
                 progs.append((p.text, names))
+    # ---- deterministic shapes: where a void function returns (after a nested if, inside a loop, from a switch,
+    #      from both arms ...) x what the caller does right behind the call (stores a constant the body also used,
+    #      reads what the body wrote, tests it ...), for every combination of the two inputs; the verdicts go to r[] ----
+    K1, K2 = 1, 2
+    SHAPES = ["if (a) { if (b) { y = %d; } return; } y = %d;" % (K1, K2),
+              "if (a) { y = %d; return; } y = %d;" % (K1, K2),
+              "if (a) return; y = %d;" % K2,
+              "if (a) { } else { return; } y = %d;" % K2,
+              "if (a) { if (b) y = %d; else return; } y = %d;" % (K1, K2),
+              "while (a) { a--; if (b) return; } y = %d;" % K2,
+              "do { if (b) { y = %d; return; } a--; } while (a); y = %d;" % (K1, K2),
+              "for (i = 0; i < 2; i++) { if (a) return; y++; } y = %d;" % K2,
+              "switch (a) { case 1: y = %d; return; case 2: break; } y = %d;" % (K1, K2),
+              "if (a) { if (b) { y = %d; } } else { y = %d; return; } y = %d;" % (K1, K2, K2),
+              "if (a && b) return; y = %d;" % K2,
+              "y = %d; if (a) { if (b) { return; } y = %d; }" % (K2, K1)]
+    AFTER = ["z = %d;" % K2, "z = %d;" % K1, "z = y;", "if (y == %d) z = 1; else z = 3;" % K2, "X = %d; z = X;" % K2, "z = %d; z = z + y;" % K2, "z = a;"]
+    for sh in SHAPES:
+        for af in AFTER:
+            blocks = []
+            k = 0
+            for A in (0, 1, 2):
+                for B in (0, 1):
+                    blocks.append("a = %d; b = %d; y = 9; z = 0; f(); %s r[%d] = z; r[%d] = y;" % (A, B, af, k, k + 1))
+                    k += 2
+            src = "unsigned char a, b, y, z, i;\nramchip unsigned char r[12];\nvoid f() { %s }\nvoid main() { %s }\n" % (sh, " ".join(blocks))
+            progs.append((src, ["f"]))
     nstates = chk.scale(8, 32)
     for (src, names) in progs:
         names = names[:5]
@@ -113,6 +140,10 @@ def run(chk):
                 if r["status"] != "ok":
                     chk.count("marked_" + r["status"])       # an inline function the compiler cannot expand is rejected: fine
                     continue
+                if level >= 1:
+                    # the caller with the expanded body went through the optimiser: every removal must be justified
+                    # by the proved validator (CV.C02.validated_function_equivalent) or lie in a documented gap
+                    c02.validate_program(chk, m, r, msrc, level)
                 o, _ = coexec.run_all(m, "c14", r, states, lay)
                 if o is None:
                     chk.fail("inline-does-not-assemble", "the program with %s inline does not load into the 6502 model" % (sub,), {"source": msrc, "level": level}); continue
